@@ -290,19 +290,30 @@ func (o *offsetDB) save(jobs map[pipeline.SourceID]*Job, mu *sync.RWMutex) {
 		job.mu.Unlock()
 	}
 
+	// an incomplete or non-durable temp file must never replace the current offsets file
 	_, err = file.Write(o.buf)
 	if err != nil {
 		logger.Errorf("can't write offsets file %s, %s", o.tmpOffsetsFile, err.Error())
+		o.removeTmp(string(tmpWithRandom))
+		return
 	}
 
 	err = file.Sync()
 	if err != nil {
 		logger.Errorf("can't sync offsets file %s, %s", o.tmpOffsetsFile, err.Error())
+		o.removeTmp(string(tmpWithRandom))
+		return
 	}
 
 	err = os.Rename(string(tmpWithRandom), o.curOffsetsFile)
 	if err != nil {
 		logger.Errorf("failed renaming temporary offsets file to current: %s", err.Error())
+	}
+}
+
+func (o *offsetDB) removeTmp(name string) {
+	if err := os.Remove(name); err != nil {
+		logger.Errorf("can't remove temp offsets file %s, %s", name, err.Error())
 	}
 }
 
